@@ -333,7 +333,7 @@ def func_int_general(Y, X, basis_func, rcond=1.E-6):
         M = np.transpose(G, [1, 0, 2]).reshape(n, -1)
 
         Q = sp.linalg.lstsq(H_mat, M, overwrite_a=False, overwrite_b=True,
-            rcond=rcond)[0]
+            cond=rcond)[0]
         Q = np.transpose(Q.reshape(n, r1, r2), [1, 0, 2])
         A.append(Q)
 
